@@ -160,12 +160,60 @@ func perform(kind, dst string, mode uint32, pieces []int, cbFail int, cbMode str
 	panic("bad kind " + kind)
 }
 
+// performHist runs a history of the safe.File API: CreateWithMode, then the '.'-separated calls w<n> (Write of n bytes),
+// C (Commit), X (Close), F (Close of the embedded *os.File); the result codes of all calls, comma separated.
+func performHist(dst string, mode uint32, ops string) string {
+	var f *safe.File
+	var err error
+	if mode == 0o644 && len(ops)%2 == 0 {
+		f, err = safe.Create(dst)
+	} else {
+		f, err = safe.CreateWithMode(dst, os.FileMode(mode))
+	}
+	if err != nil {
+		return "create:" + resCode(err)
+	}
+	var res []string
+	off := 0
+	for _, o := range strings.Split(ops, ".") {
+		switch {
+		case strings.HasPrefix(o, "w"):
+			n := atoi(o[1:])
+			k, werr := f.Write(genBytes(off, n, seedNew))
+			if werr == nil {
+				if k != n {
+					res = append(res, "BAD:short-write")
+					continue
+				}
+				off += n
+			}
+			res = append(res, resCode(werr))
+		case o == "C":
+			res = append(res, resCode(f.Commit()))
+		case o == "X":
+			res = append(res, resCode(f.Close()))
+		case o == "F":
+			res = append(res, resCode(f.File.Close()))
+		default:
+			panic("bad history op " + o)
+		}
+	}
+	if len(res) == 0 {
+		return "-"
+	}
+	return strings.Join(res, ",")
+}
+
 // childMain: child <umask> <mode> <dst> <kind> <pieces> <cbFail> <cbMode>; prints the result code with one write(2)
 // (nothing if the callback panics: the process then dies with exit status 2).
 func childMain() {
 	debug.SetGCPercent(-1)
 	a := os.Args[2:]
 	syscall.Umask(int(octal(a[0])))
+	if a[3] == "hist" {
+		os.Stdout.WriteString("res=" + performHist(a[2], octal(a[1]), a[4]) + "\n")
+		return
+	}
 	err := perform(a[3], a[2], octal(a[1]), parsePieces(a[4]), atoi(a[5]), a[6], nil)
 	os.Stdout.WriteString("res=" + resCode(err) + "\n")
 }
